@@ -159,6 +159,17 @@ impl Thread {
         self.set_unparked();
     }
 
+    /// Makes the thread runnable if it is blocked (or yielded), without
+    /// storing anything if it is not: used to wake the waiter of a `Notify`,
+    /// whose notification is recorded in the `Notify` itself.
+    pub(crate) fn wake(&mut self, waker: &Thread) {
+        self.causality.join(&waker.causality);
+
+        if self.is_blocked() || self.is_yield() {
+            self.set_runnable();
+        }
+    }
+
     /// Unpark a thread's state. If it is already runnable, store the unpark for
     /// a future call to `park`.
     fn set_unparked(&mut self) {
